@@ -258,7 +258,7 @@ def run(ctx):
     # ---------------- R4
     r4 = ctx.rule("C08-R4", "the client's name map is written only by buffer_parse (insert under the client's own name) and by the Close / error / refused-batch paths (remove); Bind/Describe rewriting reads only that map", floor=4)
     allowed = {"insert": {"pgcat::client::Client::buffer_parse"},
-               "remove": {H, ENSURE + "::{closure#0}"},
+               "remove": {H, ENSURE + "::{closure#0}", "pgcat::client::Client::forget_closed_statement"},   # the last one: a client Close, applied when it is read (D33)
                "retain": {"pgcat::client::Client::forget_buffered_prepared_statements"},
                "get": {"pgcat::client::Client::buffer_bind::{closure#0}", "pgcat::client::Client::buffer_describe::{closure#0}", ENSURE + "::{closure#0}"}}
     seen = {}
@@ -372,6 +372,29 @@ def run(ctx):
     ac = ctx.body("pgcat::server::Server::add_prepared_statement_to_cache", r5)
     if ac:
         r5.check(bool(ac.calls("re:LruCache.*::push$")), "lru-push", "the server cache is an LRU push (returns the evicted entry)", "add_prepared_statement_to_cache no longer uses LruCache::push")
+
+    # ---------------- R4 continued (D33): the name map follows the order of the client's messages
+    if ctx.body(H):
+        h4 = ctx.body(H)
+        pf4 = [c for c in h4.calls("re:VecDeque::pop_front$") if "extended_protocol_data_buffer" in {p_[1:] for o in origins(h4, c.args[0]) if o.kind in ("place", "param") for p_ in o.proj if p_.startswith(".")}]
+        rm4 = [c.block for c in h4.calls("pgcat::messages::read_message")]
+        heads4 = [hd for hd in loop_headers(h4) if any(c.block in natural_loop(h4, hd) for c in pf4) and not any(b_ in natural_loop(h4, hd) for b_ in rm4)]
+        if heads4:
+            L4 = natural_loop(h4, max(heads4, key=lambda hd: -len(natural_loop(h4, hd))))
+            late = [c for c in h4.calls("re:HashMap::.*(remove|retain|clear)$") if c.block in L4 and "prepared_statements" in {p_[1:] for o in origins(h4, c.args[0]) if o.kind in ("place", "param") for p_ in o.proj if p_.startswith(".")}]
+            r4.check(not late, "close-applied-in-message-order", "the replay of the buffered batch at Sync does not touch the client's name map (names are given and taken when the messages are read)",
+                     "a Close is applied to the client's name map when the batch is replayed at Sync, but a Parse registers its name when it is read: `Close S1; Parse S1` in one batch deletes the new S1, "
+                     "the client gets ParseComplete and its next Bind S1 fails", late[0].where() if late else "")
+        # every place that reads a client Close forgets the name there
+        removers = {n_ for n_, b_ in F.bodies.items() if n_.startswith("pgcat::client::Client::") and any("prepared_statements" in {p_[1:] for o in origins(b_, c.args[0]) if o.kind in ("place", "param") for p_ in o.proj if p_.startswith(".")} for c in b_.calls("re:HashMap::.*remove$"))}
+        reads_close = [c for c in h4.calls(DEC % "Close", "re:TryInto<.*>::try_into$") if any("messages::Close" in t for t in c.targs) or c.name == DEC % "Close"]
+        nclose = 0
+        for c in reads_close:
+            nclose += 1
+            nxt = h4.reach([c.target] if c.target is not None else [], avoid_blocks=rm4)
+            okc = any(k.block in nxt for k in h4.calls(*sorted(removers))) if removers else False
+            r4.check(okc, "close-read=>name-forgotten#%d" % nclose, "the Close read at client.rs:%s takes the name out of the map there" % c.span.split(":")[1], "the Close read at client.rs:%s does not update the client's name map when it is read" % c.span.split(":")[1], c.where())
+        r4.check(nclose >= 2, "close-read-sites", "%d sites read a client Close" % nclose, "expected the two Close arms of Client::handle, found %d" % nclose)
 
     # ---------------- R7 (D12)
     r7 = ctx.rule("C08-R7", "a statement made available for the batch being assembled stays on the server until the batch is sent: nothing reachable from the batch-assembly region of the Sync arm sends a pgcat-built Close, "
